@@ -1,5 +1,270 @@
 """Node-side handlers for private-table events (C10)."""
+import copy
+import pickle
+
+import numpy as np
+
+from . import canon as C
+from .canon import canon
 
 
 class C10Mixin(object):
-    pass
+
+    # -- tables ---------------------------------------------------------------
+    def ev_newtable(self, name):
+        t = self.core.PeriodicTable(name)
+        self.tables[name] = t
+        return "ok"
+
+    # -- membership (O4) --------------------------------------------------------
+    def _membership(self, tbl, f):
+        """All atoms of formula f must *be* atoms of table tbl."""
+        t = self.table(tbl)
+        tname = "public" if tbl == "public" else tbl
+        keys, foreign = [], 0
+        for a in f.atoms:
+            k = C.atom_key(a)
+            keys.append(list(k))
+            try:
+                mine = self.atom(tbl, k[1:])
+            except Exception:  # noqa: BLE001
+                mine = None
+            if mine is not a or k[0] != tname:
+                foreign += 1
+        keys.sort()
+        return {"n": len(keys), "foreign": foreign, "tables": sorted({k[0] for k in keys})}
+
+    def ev_formula(self, tbl, s, how="str"):
+        t = self.table(tbl)
+        pt = self.pt
+        if how == "str":
+            f = pt.formula(s, table=t)
+        elif how == "density":
+            f = pt.formula(s, table=t, density=1.0)
+        elif how == "parse":
+            f = self.module("periodictable.formulas").parse_formula(s, table=t)
+        elif how == "copy":
+            f = pt.formula(pt.formula(s, table=t))
+        elif how == "pickle":
+            f = pickle.loads(pickle.dumps(pt.formula(s, table=t)))
+        elif how == "deepcopy":
+            f = copy.deepcopy(pt.formula(s, table=t))
+        elif how == "add":
+            f = pt.formula(s, table=t) + 2 * pt.formula(s, table=t)
+        else:
+            raise ValueError(how)
+        out = self._membership(tbl, f)
+        out["str"] = str(f)
+        return out
+
+    def ev_mix(self, tbl, which, parts):
+        t = self.table(tbl)
+        fn = self.pt.mix_by_weight if which == "weight" else self.pt.mix_by_volume
+        f = fn(*parts, table=t)
+        return self._membership(tbl, f)
+
+    def ev_change_table(self, src, s, dst):
+        f = self.pt.formula(s, table=self.table(src))
+        g = f.change_table(self.table(dst))
+        return self._membership(dst, g)
+
+    def ev_change_atom(self, src, ref, dst):
+        a = self.atom(src, ref)
+        b = self.core.change_table(a, self.table(dst))
+        k = C.atom_key(b)
+        dname = dst
+        return {"same_key": list(k[1:]) == list(ref), "table_ok": k[0] == dname,
+                "is": b is self.atom(dst, ref)}
+
+    def ev_calc_str(self, tbl, which, s, density, x):
+        """Calculators given the *string* and table=T (the library parses it)."""
+        t = self.table(tbl)
+        if which == "nscat":
+            return canon(self.pt.neutron_scattering(s, density=density, wavelength=x, table=t))
+        if which == "nsld":
+            return canon(self.pt.neutron_sld(s, density=density, wavelength=x, table=t))
+        raise ValueError(which)
+
+    # -- pickling (O5) ----------------------------------------------------------
+    def ev_dump(self, msgid, tbl, ref, proto):
+        a = self.atom(tbl, ref)
+        return ["B", pickle.dumps(a, proto)]
+
+    def ev_dump_formula(self, msgid, tbl, s, proto):
+        f = self.pt.formula(s, table=self.table(tbl))
+        return ["B", pickle.dumps(f, proto)]
+
+    def _is_mine(self, a):
+        k = C.atom_key(a)
+        try:
+            t = self.core.PRIVATE_TABLES[k[0]]
+        except KeyError:
+            return False
+        el = t[k[1]]
+        if k[2]:
+            el = el[k[2]]
+        if k[3]:
+            el = el.ion[k[3]]
+        return el is a
+
+    # -- mutation ---------------------------------------------------------------
+    def ev_mutate(self, tbl, ref, target, arg=None):
+        a = self.atom(tbl, ref)
+        v = 1.2345 if arg is None else arg
+        if target in ("_mass", "_density", "_abundance", "covalent_radius", "covalent_radius_uncertainty",
+                      "K_alpha", "K_beta1", "density_caveat", "nuclear_spin"):
+            setattr(a, target, v)
+            return "ok"
+        if target == "crystal_structure_assign":
+            a.crystal_structure = {"symmetry": "verif", "a": v}
+            return "ok"
+        if target == "crystal_structure_inplace":
+            d = a.crystal_structure
+            if d is None:
+                return "skip"
+            d["symmetry"] = "verif"
+            d["a"] = v
+            return "ok"
+        if target == "neutron_assign":
+            rec = copy.copy(a.neutron)
+            rec.b_c = v
+            a.neutron = rec
+            return "ok"
+        if target in ("neutron_field", "neutron_field_dataless"):
+            rec = a.neutron
+            rec.b_c = v
+            rec.total = v
+            return "ok"
+        if target == "nsf_table_inplace":
+            rec = a.neutron
+            if rec.nsf_table is None:
+                return "skip"
+            rec.nsf_table[1][0] = v
+            return "ok"
+        if target == "magnetic_ff_field":
+            d = a.magnetic_ff
+            q = sorted(d)[0]
+            d[q].j0 = (v,) * 7
+            return "ok"
+        if target == "magnetic_ff_dict":
+            a.magnetic_ff[99] = "verif"
+            return "ok"
+        if target == "magnetic_ff_assign":
+            a.magnetic_ff = {2: "verif"}
+            return "ok"
+        if target == "activation_row_field":
+            rows = a.neutron_activation
+            rows[0].thermalXS = v
+            return "ok"
+        if target == "activation_list":
+            a.neutron_activation.append(a.neutron_activation[0])
+            return "ok"
+        if target == "activation_assign":
+            a.neutron_activation = []
+            return "ok"
+        if target == "xray_newfield":
+            a.xray.newfield = v
+            return "ok"
+        if target == "xray_sftable_inplace":
+            tab = a.xray.sftable
+            if tab is None:
+                return "skip"
+            tab[1][0] = v
+            return "ok"
+        if target == "add_isotope":
+            a.add_isotope(int(arg))
+            return "ok"
+        raise ValueError(target)
+
+    def ev_mutate_walk(self, tbl, group, k, how=None):
+        """Generic mutation from the shared-object walk (DESIGN 3.4): collect the
+        mutable objects reachable from the served values of `group` on `tbl`, in a
+        fixed order, and mutate the (k mod n)-th one in place."""
+        objs = self._walk(tbl, group, how == "with_defaults")
+        if not objs:
+            return "skip"
+        o = objs[k % len(objs)]
+        return self._poke(o)
+
+    def _walk(self, tbl, group, defaults=False):
+        t = self.table(tbl)
+        seen, out = set(), []
+
+        def visit(o, depth=0):
+            if depth > 6 or id(o) in seen:
+                return
+            if isinstance(o, (dict, list, set)):
+                seen.add(id(o))
+                out.append(o)
+                vals = o.values() if isinstance(o, dict) else o
+                for x in list(vals):
+                    visit(x, depth + 1)
+            elif isinstance(o, tuple):
+                for x in o:
+                    visit(x, depth + 1)
+            elif isinstance(o, np.ndarray):
+                seen.add(id(o))
+                if o.flags.writeable and o.size and o.dtype.kind in "fc":
+                    out.append(o)
+            elif type(o).__module__.startswith("periodictable") and \
+                    type(o).__name__ not in ("Element", "Isotope", "Ion", "PeriodicTable", "IonSet"):
+                seen.add(id(o))
+                out.append(o)
+                if type(o).__name__ == "Xray":
+                    try:
+                        visit(o.sftable, depth + 1)
+                    except Exception:  # noqa: BLE001
+                        pass
+                else:
+                    for x in list(vars(o).values()):
+                        visit(x, depth + 1)
+
+        names = {"covalent_radius": ["covalent_radius"], "crystal_structure": ["crystal_structure"],
+                 "neutron": ["neutron"], "activation": ["neutron_activation"], "xray": ["xray"],
+                 "emission": ["K_alpha"], "magnetic_ff": ["magnetic_ff"]}[group]
+        for el in t:
+            atoms = [el]
+            if group in ("neutron", "activation"):
+                atoms += list(el)
+            for a in atoms:
+                for n in names:
+                    d = a.__dict__
+                    if group == "xray":
+                        try:
+                            visit(a.xray)
+                        except Exception:  # noqa: BLE001
+                            pass
+                    elif n in d:
+                        visit(d[n])
+                    elif defaults:
+                        # class-level default served to this atom (e.g. the "missing" record)
+                        try:
+                            visit(getattr(a, n))
+                        except Exception:  # noqa: BLE001
+                            pass
+        return out
+
+    @staticmethod
+    def _poke(o):
+        if isinstance(o, dict):
+            o["__verif__"] = 1
+            for k in sorted(o, key=repr):
+                if isinstance(o[k], float):
+                    o[k] = o[k] + 1.0
+                    break
+            return "dict"
+        if isinstance(o, list):
+            o.append("__verif__")
+            return "list"
+        if isinstance(o, set):
+            o.add("__verif__")
+            return "set"
+        if isinstance(o, np.ndarray):
+            o.flat[0] = o.flat[0] + 1
+            return "ndarray"
+        for k, v in sorted(vars(o).items()):
+            if isinstance(v, float):
+                setattr(o, k, v + 1.0)
+                return "record:" + type(o).__name__
+        setattr(o, "verif_field", 1)
+        return "record+:" + type(o).__name__
